@@ -18,7 +18,7 @@ NAME_POOL = [
     "a", "std", "libm", "lib2", "lib_", "Lib", "core2", "m", "m10", "m2", "tex2d", "Ray", "x", "x10",
 ]
 
-TEMPLATES = ["expr", "expr", "loop", "branch", "glob", "struct", "array", "helper", "while", "vec", "local"]
+TEMPLATES = ["expr", "expr", "loop", "branch", "glob", "glob", "struct", "array", "helper", "while", "vec", "local"]
 
 
 def _int_arg(rng, params):
@@ -31,8 +31,16 @@ def _int_arg(rng, params):
     return str(rng.randint(0, 9))
 
 
+def _floats(params):
+    return [n for n, t in params if t == "float"] + [f"{n}[{k}]" for n, t in params if t == "float4" for k in (1, 3)]
+
+
+def _vec_arg(rng, params):
+    return "float4(" + ", ".join(_float_arg(rng, params) for _ in range(4)) + ")"
+
+
 def _float_arg(rng, params):
-    fl = [n for n, t in params if t == "float"]
+    fl = _floats(params)
     c = rng.random()
     if fl and c < 0.5:
         return rng.choice(fl)
@@ -84,6 +92,8 @@ def gen_program(rng, sw):
             params.append(["c", rng.choice(["int", "float"])])
         if rng.random() < 0.12:
             params = [["b", "float"]]
+        if rng.random() < 0.15:
+            params.append(["v", "float4"])  # vector-typed parameter (also across module boundaries)
         ret = rng.choice(["int", "int", "float"])
         funcs.append({"name": f"f{i - nh}", "export": True, "params": params, "ret": ret, "k": rng.randint(1, 9)})
     # call graph
@@ -103,7 +113,8 @@ def gen_program(rng, sw):
         f["calls"] = []
         for j in callees:
             g = funcs[j]
-            args = [(_int_arg(rng, f["params"]) if t == "int" else _float_arg(rng, f["params"])) for _n, t in g["params"]]
+            args = [(_int_arg(rng, f["params"]) if t == "int" else _vec_arg(rng, f["params"]) if t == "float4"
+                     else _float_arg(rng, f["params"])) for _n, t in g["params"]]
             f["calls"].append({"f": j, "args": args})
     # module assignment, monotone wrt calls (module ids ascending = topological)
     if shape in ("chain", "diamond", "fanin"):
@@ -128,7 +139,7 @@ def gen_scenario(seed, tier="quick"):
         "call_density": swr.choice([0.25, 0.45, 0.7]),
         "restricted": swr.random() < 0.35,  # imports first, one feature at a time (keeps single defects reachable)
         "globals": swr.choice([0.0, 0.3, 0.6]),
-        "shared_globals": swr.random() < 0.3,
+        "shared_globals": swr.random() < 0.45,
         "extra_imports": swr.choice([0.0, 0.0, 0.3]),
         "cli": swr.random() < (0.05 if tier == "quick" else 0.07),
         "dup": swr.random() < 0.18,
@@ -157,7 +168,9 @@ def gen_scenario(seed, tier="quick"):
     # module-owned globals
     for m in range(nm):
         if prng.random() < sw["globals"]:
-            t = prng.choice(["int", "int", "float", "int[3]"])
+            t = prng.choice(["int", "int", "float", "int[3]", "float4", "struct"])
+            if t == "struct":
+                t = f"G{m}"  # a struct type defined by the module that owns the global
             globs.append({"name": f"g_{names[m]}", "type": t, "mod": m})
     # templates
     for i, f in enumerate(funcs):
@@ -168,9 +181,9 @@ def gen_scenario(seed, tier="quick"):
         f["glob"] = None
         if tm == "glob":
             cands = list(own)
-            if sw["shared_globals"] and lower and prng.random() < 0.5:
+            if sw["shared_globals"] and lower and prng.random() < 0.75:
                 cands = lower
-            cands = [g for g in cands if g["type"] in ("int", "float", "int[3]")]
+            cands = [g for g in cands if g["type"] in ("int", "float", "int[3]", "float4") or g["type"].startswith("G")]
             if cands:
                 f["glob"] = prng.choice(cands)["name"]
             else:
@@ -287,7 +300,8 @@ def gen_scenario(seed, tier="quick"):
         f = funcs[i]
         args = {}
         for n, t in f["params"]:
-            args[n] = hrng.randint(-5, 9) if t == "int" else hrng.randint(-8, 8) * 0.25
+            args[n] = (hrng.randint(-5, 9) if t == "int" else [hrng.randint(-8, 8) * 0.25 for _ in range(4)]
+                       if t == "float4" else hrng.randint(-8, 8) * 0.25)
         hist.append({"f": f["name"], "args": args})
     ginit = {}
     for g in globs:
@@ -295,6 +309,11 @@ def gen_scenario(seed, tier="quick"):
             ginit[g["name"]] = hrng.randint(-5, 5)
         elif g["type"] == "float":
             ginit[g["name"]] = hrng.randint(-8, 8) * 0.25
+        elif g["type"] == "float4":
+            ginit[g["name"]] = [hrng.randint(-8, 8) * 0.25 for _ in range(4)]
+        elif g["type"].startswith("G"):
+            k = g["type"][1:]
+            ginit[g["name"]] = {f"ga{k}": hrng.randint(-5, 5), f"gb{k}": hrng.randint(-8, 8) * 0.25}
         else:
             ginit[g["name"]] = [hrng.randint(-5, 5) for _ in range(3)]
     return {
@@ -332,7 +351,7 @@ def _value_expr(sc, f, k):
             if g["ret"] == "int":
                 e = f"({e} + {_call_src(funcs, c)})"
         return e
-    fl = [n for n, t in f["params"] if t == "float"]
+    fl = _floats(f["params"])
     e = f"({fl[0]} + {k}.5)" if fl else f"{k}.25"
     for c in f["calls"]:
         e = f"({e} + {_call_src(funcs, c)})"
@@ -369,7 +388,7 @@ def func_src(sc, i, dk=0, variant=0):
         )
     elif tm == "branch":
         ints = [p for p, t in f["params"] if t == "int"]
-        cond = f"({ints[0]} > {n})" if ints else f"(b > {n}.5)"
+        cond = f"({ints[0]} > {n})" if ints else f"({_floats(f['params'])[0]} > {n}.5)"
         body = f"  if ({cond}) {{\n    return {val};\n  }}\n  return ({val} + {zero if rt == 'float' else '7'});\n"
     elif tm == "glob" and f.get("glob"):
         g = f["glob"]
@@ -378,6 +397,13 @@ def func_src(sc, i, dk=0, variant=0):
             body = f"  {g}[{n % 3}] = ({g}[{n % 3}] + {k});\n  {rt} r = {val};\n  return r;\n"
             if rt == "int":
                 body = f"  {g}[{n % 3}] = ({g}[{n % 3}] + {k});\n  int r = ({val} + {g}[{(n + 1) % 3}]);\n  return r;\n"
+        elif gt == "float4":
+            body = f"  {g}[{n % 4}] = ({g}[{n % 4}] + {k}.5);\n  {rt} r = {val};\n"
+            body += f"  return (r + {g}[{(n + 1) % 4}]);\n" if rt == "float" else "  return r;\n"
+        elif gt.startswith("G"):
+            gm = gt[1:]
+            body = f"  {g}.ga{gm} = ({g}.ga{gm} + {k});\n  {g}.gb{gm} = ({g}.gb{gm} + 0.5);\n  {rt} r = {val};\n"
+            body += f"  return (r + {g}.ga{gm});\n" if rt == "int" else f"  return (r + {g}.gb{gm});\n"
         elif gt == "int":
             body = f"  {g} = ({g} + {k});\n  {rt} r = {val};\n"
             body += f"  return (r + {g});\n" if rt == "int" else "  return r;\n"
@@ -401,7 +427,7 @@ def func_src(sc, i, dk=0, variant=0):
                 ints = [p for p, t in f["params"] if t == "int"]
                 args.append(ints[0] if ints else str(n))
             else:
-                fl = [p for p, t in f["params"] if t == "float"]
+                fl = _floats(f["params"])
                 args.append(fl[0] if fl else "1.5")
         call = f"{h['name']}(" + ", ".join(args) + ")"
         if h["ret"] == "float" and rt == "int":
@@ -414,7 +440,7 @@ def func_src(sc, i, dk=0, variant=0):
             f"  return s;\n"
         )
     elif tm == "vec" and rt == "float":
-        body = f"  float4 v = float4(1.5, 2.5, 3.5, 4.5);\n  v.y = {val};\n  return v[1];\n"
+        body = f"  float4 vv = float4(1.5, 2.5, 3.5, 4.5);\n  vv.y = {val};\n  return vv[1];\n"
     elif tm == "local":
         body = f"  {rt} r = {val};\n  {rt} u = (r + {zero if rt == 'float' else '2'});\n  return u;\n"
     else:
@@ -444,6 +470,9 @@ def module_src(sc, m, gen=0, variant=0):
         head.append(f"struct {mod['struct']} {{ int q{m}; float r{m}; }}\n")
     for g in sc["globals"]:
         if g["mod"] == m:
+            if g["type"].startswith("G"):
+                k = g["type"][1:]
+                head.append(f"struct {g['type']} {{ int ga{k}; float gb{k}; }}\n")
             head.append(f"{g['type']} {g['name']};\n")
     parts = [helper_src(h) for h in mod["helpers"]]
     parts += [func_src(sc, i, dk[i], variant) for i, f in enumerate(sc["funcs"]) if f["mod"] == m]
@@ -466,6 +495,9 @@ def single_src(sc, gen=0, variants=None):
         if mod.get("struct"):
             out.append(f"struct {mod['struct']} {{ int q{m}; float r{m}; }}\n")
     for g in sc["globals"]:
+        if g["type"].startswith("G"):
+            k = g["type"][1:]
+            out.append(f"struct {g['type']} {{ int ga{k}; float gb{k}; }}\n")
         out.append(f"{g['type']} {g['name']};\n")
     for m, mod in enumerate(sc["modules"]):
         for h in mod["helpers"]:
